@@ -21,6 +21,9 @@ type FilterPool struct {
 	// BigLimits: now and then a limit no store will ever reach (2^31 and beyond), which
 	// must behave like a very large limit, not like a small, zero or negative one
 	BigLimits bool
+	// LongLists: now and then a list of 101-160 filters (clients that subscribe per author
+	// or per thread); most of them small, many overlapping
+	LongLists bool
 	// AllowEmptyTagsMap lets the generator produce Tags: map{} (non-nil, empty).
 	AllowEmptyTagsMap bool
 	// NoTagCaseClash prevents a filter from carrying both #x and #X.
@@ -194,6 +197,21 @@ func (p *FilterPool) drawTs(t *rapid.T, label string) int64 {
 // DrawFilters draws a list of min..max filters.
 func (p *FilterPool) DrawFilters(t *rapid.T, label string, min, max int) []*mocrelay.ReqFilter {
 	n := rapid.IntRange(min, max).Draw(t, label+"nf")
+	if p.LongLists && max > 1 && rapid.IntRange(0, 59).Draw(t, label+"longlist") == 0 {
+		n = rapid.SampledFrom([]int{100, 101, 102, 128, 160}).Draw(t, label+"nflong")
+		out := make([]*mocrelay.ReqFilter, n)
+		base := []*mocrelay.ReqFilter{p.DrawFilter(t, label+"b0."), p.DrawFilter(t, label+"b1."), p.DrawFilter(t, label+"b2."), {}}
+		for i := range out {
+			// overlapping members: copies of a few drawn filters with small limits, so that the
+			// same events are matched from the front, the middle and the end of the list
+			c := *base[rapid.IntRange(0, len(base)-1).Draw(t, fmt.Sprintf("%sl%d", label, i))]
+			if rapid.Bool().Draw(t, fmt.Sprintf("%sl%dlim", label, i)) {
+				c.Limit = ptr(rapid.Int64Range(1, 3).Draw(t, fmt.Sprintf("%sl%dlimv", label, i)))
+			}
+			out[i] = &c
+		}
+		return out
+	}
 	out := make([]*mocrelay.ReqFilter, n)
 	for i := range out {
 		out[i] = p.DrawFilter(t, fmt.Sprintf("%sf%d.", label, i))
